@@ -1861,8 +1861,9 @@ class NoteRestToken(ComplexToken):
         ]
 
         # Deterministic order
+        # stable sort by category only: sub-tokens of one category (e.g. '4' and '.') keep their grammar order
         pitch_duration_tokens_sorted = sorted(
-            pitch_duration_tokens, key=lambda t: (t.category.value, t.encoding)
+            pitch_duration_tokens, key=lambda t: t.category.value
         )
         decoration_tokens_sorted = sorted(
             decoration_tokens, key=lambda t: (t.category.value, t.encoding)
